@@ -1,9 +1,9 @@
-\* C11 thorough: one directory, <= 6 file-system operations, liveness under fairness
+\* C11, queue overflow: the quick universe with a kernel queue of 2 events (+ the overflow notice)
 SPECIFICATION Spec
 CONSTANTS
   D = {"A"}
   DirOptions = {{"A"}}
-  MaxFsOps = 6
+  MaxFsOps = 4
   MaxConfs = 0
   MaxWids = 1
   STARTS = {TRUE, FALSE}
@@ -17,7 +17,7 @@ CONSTANTS
   FIX_SCANWATCHED = TRUE
   FIX_RETRY = TRUE
   FIX_OVERFLOW = TRUE
-  QMax = 99
+  QMax = 2
   RECORD = FALSE
 INVARIANTS TypeOK Bounded WatchesOK
 PROPERTIES Converges ErrConverges Settles ConfigureFresh
